@@ -57,6 +57,9 @@ class Handler:
         self.single, self.listy = single, listy
         self.slots_of = slots_of          # node class -> [slot names]
         self.top = top
+        self.has_cond = (not top) and "condition" in slots_of.get(cls_handled, [])
+        self.depth = 0                    # inlining depth
+        self._w = None
         self.bad = []                     # (node, what) found while interpreting
         self.loop_of = {}                 # break / return statement -> enclosing for loop
         def walk(node, brk, ret):
@@ -93,6 +96,9 @@ class Handler:
                 ws = [w.set(f"@raw:{s}", n) for w in ws for n in (True, False)]
             elif s.lstrip("*") in self.listy:
                 ws = [w.set("@rawcount", c) for w in ws for c in (0, 1, 2)]
+        if self.has_cond:
+            conds = [("cond", "c", d) for d in range(4)] + [("bool", True), ("bool", False)]
+            ws = [w.set("@cond", c) for w in ws for c in conds]
         return ws
 
     # }}}
@@ -123,9 +129,15 @@ class Handler:
                 w2 = w.set(key, n)
                 if o in self.listy:
                     w2 = w2.set("@owed", None if n else "rec")
-                outs.append((self.arm(o, True, n), w2))
+                if not n and self.has_cond and o in self.single:
+                    # what the simplified child is: some other node, a conditional on the
+                    # same flag, a conditional on another flag
+                    for shape in ("leaf", "same", "other"):
+                        outs.append((self.arm(o, True, n), w2.set(f"@shape:{o}", shape)))
+                else:
+                    outs.append((self.arm(o, True, n), w2))
             return outs
-        if v[0] in ("cond", "slot", "null"):
+        if v[0] in ("cond", "slot", "null", "bool"):
             return [(v, w)]               # pymbolic identity / map_NullASTNode
         if v[0] == "list":
             return [(OTHER, w)]
@@ -152,10 +164,24 @@ class Handler:
             if a in self.listy:
                 return [(("list", "raw", w.get("@rawcount"), True), w)]
             if a == "condition":
-                return [(("cond", 1), w)]
+                return [(w.get("@cond", ("cond", "c", 0)), w)]
             return [(("slot", a), w)]
         if isinstance(e, ast.Attribute):
-            return [(OTHER, w)]
+            outs = []
+            for v, w2 in self.ev(e.value, w):
+                if v[0] == "cond" and e.attr == "child" and v[2] > 0:
+                    outs.append((("cond", v[1], v[2] - 1), w2))
+                elif v[0] == "arm" and v[2] and not v[3] and w2.get(f"@shape:{v[1]}") in ("same", "other"):
+                    shape = w2.get(f"@shape:{v[1]}")
+                    if e.attr == "condition":
+                        outs.append((("cond", "c" if shape == "same" else "o", 0), w2))
+                    elif e.attr in self.single:
+                        outs.append((self.arm(f"{v[1]}.{e.attr}", True, False), w2))
+                    else:
+                        outs.append((OTHER, w2))
+                else:
+                    outs.append((OTHER, w2))
+            return outs
         if isinstance(e, ast.UnaryOp) and isinstance(e.op, ast.Not):
             return [(self._not(v), w2) for v, w2 in self.ev(e.operand, w)]
         if isinstance(e, ast.BoolOp):
@@ -219,6 +245,11 @@ class Handler:
         return None
 
     def _compare(self, l, op, r):
+        if l[0] in ("cond", "bool") and r[0] in ("cond", "bool") \
+                and isinstance(op, (ast.Is, ast.IsNot, ast.Eq, ast.NotEq)) \
+                and not (l[0] == "bool" and l[1] is None) and not (r[0] == "bool" and r[1] is None):
+            same = l == r
+            return same if isinstance(op, (ast.Is, ast.Eq)) else not same
         if l[0] == "int" and r[0] == "int" and l[1] is not None and r[1] is not None:
             def f(a, b):
                 return {ast.Eq: a == b, ast.NotEq: a != b, ast.Lt: a < b, ast.LtE: a <= b,
@@ -235,8 +266,20 @@ class Handler:
     def _isinstance(self, v, clsexpr):
         names = [dotted(x) for x in clsexpr.elts] if isinstance(clsexpr, ast.Tuple) else [dotted(clsexpr)]
         names = [n.split(".")[-1] if n else n for n in names]
+        if v[0] == "cond":
+            if names == ["LogicalNot"]:
+                return v[2] > 0
+            return None
+        if v[0] == "bool" and names == ["LogicalNot"]:
+            return False
         if v[0] == "arm":
             is_null = v[3]
+            shape = self._w.get(f"@shape:{v[1]}") if self._w is not None else None
+            if not is_null and v[2] and shape is not None:
+                if shape in ("same", "other"):
+                    return "IfThenElse" in names or "ASTNode" in names
+                if names == ["IfThenElse"]:
+                    return False
         elif v[0] == "null":
             is_null = True
         elif v[0] == "node":
@@ -263,7 +306,12 @@ class Handler:
                 outs.extend(self.rec(v, w2))
             return outs
         if fn == "isinstance" and len(e.args) == 2:
-            return [(("bool", self._isinstance(v, e.args[1])), w2) for v, w2 in self.ev(e.args[0], w)]
+            outs = []
+            for v, w2 in self.ev(e.args[0], w):
+                self._w = w2
+                outs.append((("bool", self._isinstance(v, e.args[1])), w2))
+            self._w = None
+            return outs
         if fn == "len" and len(e.args) == 1:
             outs = []
             for v, w2 in self.ev(e.args[0], w):
@@ -288,7 +336,12 @@ class Handler:
         if short == "LogicalNot" and len(e.args) == 1:
             outs = []
             for v, w2 in self.ev(e.args[0], w):
-                outs.append(((("cond", -v[1]) if v[0] == "cond" else OTHER), w2))
+                if v[0] == "cond":
+                    outs.append((("cond", v[1], v[2] + 1), w2))
+                elif v[0] == "bool" and v[1] is not None:
+                    outs.append((("bool", not v[1]), w2))
+                else:
+                    outs.append((OTHER, w2))
             return outs
         cls = None
         if short in self.slots_of:
@@ -319,8 +372,58 @@ class Handler:
                 names.append(kw.arg)
                 exprs.append(kw.value)
             return [(("node", cls, tuple(zip(names, vals))), w2) for vals, w2 in self.ev_seq(exprs, w)]
+        callee = self._resolve_helper(e)
+        if callee is not None and self.depth < 2 and not e.keywords \
+                and not any(isinstance(a, ast.Starred) for a in e.args):
+            return self._inline(callee, e.args, w)
         # unknown call: evaluate nothing, know nothing
         return [(OTHER, w)]
+
+    def _resolve_helper(self, e):
+        from ..engine.srcmodel import Func
+        try:
+            if isinstance(e.func, ast.Name):
+                t = self.P.resolve_name(self.f, e.func.id)
+                return t if isinstance(t, Func) and not t.module.trusted else None
+            d = dotted(e.func)
+            if d and d.startswith("self.") and d.count(".") == 1 and self.f.cls is not None:
+                name = d[5:]
+                if name == "rec" or name.startswith("map_"):
+                    return None
+                m = self.P.method(self.f.cls, name)
+                return m if m is not None and not m.module.trusted else None
+        except Exception:
+            return None
+        return None
+
+    def _inline(self, callee, args, w):
+        """Evaluate a small helper of the repository on the abstract arguments."""
+        params = list(callee.params)
+        if callee.cls is not None and params and params[0] in ("self", "cls"):
+            params = params[1:]
+        if len(params) != len(args):
+            return [(OTHER, w)]
+        outs = []
+        for vals, w1 in self.ev_seq(args, w):
+            facts = {k: v for k, v in w1.items() if isinstance(k, str) and k.startswith("@")}
+            w_in = World({**facts, **dict(zip(params, vals))})
+            g = CFG(callee.node)
+            self.depth += 1
+            try:
+                ins = explore(g, [w_in], self.exec_stmt, self.test, self.bind_for)
+                for n in g.nodes:
+                    if n.kind == "stmt" and isinstance(n.ast, ast.Return) and ins.get(n):
+                        for wr in ins[n]:
+                            rets = self.ev(n.ast.value, wr) if n.ast.value is not None else [(OTHER, wr)]
+                            for v, w_out in rets:
+                                merged = w1
+                                for k, x in w_out.items():
+                                    if isinstance(k, str) and k.startswith("@"):
+                                        merged = merged.set(k, x)
+                                outs.append((v, merged))
+            finally:
+                self.depth -= 1
+        return outs or [(OTHER, w)]
 
     def _elem_worlds(self, es, w, var):
         """Bind a loop / comprehension variable to one element of a children list."""
@@ -506,10 +609,18 @@ class Handler:
 
     # {{{ verdicts
 
-    def den(self, v, guards=()):
-        """Denotation: [(guards, origin, simplified?)] of the arms that can run."""
+    def den(self, v, guards=(), w=None):
+        """Denotation: [(guards, origin, simplified?)] of the arms that can run; a guard
+        is a literal (flag, sign), a loop marker, or '?'."""
         if v[0] == "arm":
-            return [] if v[3] else [(guards, v[1], v[2])]
+            if v[3]:
+                return []
+            shape = w.get(f"@shape:{v[1]}") if w is not None else None
+            if shape in ("same", "other"):
+                flag = "c" if shape == "same" else "o"
+                return [(guards + ((flag, 1),), f"{v[1]}.then", v[2]),
+                        (guards + ((flag, -1),), f"{v[1]}.else_", v[2])]
+            return [(guards, v[1], v[2])]
         if v[0] == "null":
             return []
         if v[0] == "elem":
@@ -519,7 +630,7 @@ class Handler:
         if v[0] == "tuple":
             out = []
             for x in v[1]:
-                out += self.den(x, guards)
+                out += self.den(x, guards, w)
             return out
         if v[0] == "node":
             cls, slots = v[1], dict(v[2])
@@ -531,8 +642,16 @@ class Handler:
                     if s not in self.single:
                         continue
                     pol = 1 if s == "then" else -1
-                    g = ("if", c[1] * pol) if c[0] == "cond" else ("if", "?")
-                    out += self.den(slots.get(s, OTHER), guards + (g,))
+                    if c[0] == "cond":
+                        g = (c[1], pol * (-1) ** c[2])
+                    elif c[0] == "bool" and c[1] is not None:
+                        if (pol == 1) != c[1]:
+                            continue        # this arm never runs
+                        out += self.den(slots.get(s, OTHER), guards, w)
+                        continue
+                    else:
+                        g = ("?", pol)
+                    out += self.den(slots.get(s, OTHER), guards + (g,), w)
                 return out
             non_child = [s for s in decl if s not in self.single and s not in self.listy]
             if non_child and any(s in self.single for s in decl):
@@ -541,14 +660,25 @@ class Handler:
                 out = []
                 for s in decl:
                     if s in self.single:
-                        out += self.den(slots.get(s, OTHER), guards + (g,))
+                        out += self.den(slots.get(s, OTHER), guards + (g,), w)
                 return out
             out = []
             for s in decl:
                 if s in self.single or s in self.listy:
-                    out += self.den(slots.get(s, OTHER), guards)
+                    out += self.den(slots.get(s, OTHER), guards, w)
             return out
         return [(guards, "?", True)]
+
+    @staticmethod
+    def canon(den):
+        """Drop paths whose guards contradict each other, collapse repeated guards."""
+        out = []
+        for guards, o, r in den:
+            lits = set(guards)
+            if any((f, -s) in lits for f, s in lits if isinstance(s, int)):
+                continue
+            out.append((tuple(sorted(lits, key=repr)), o, r))
+        return sorted(out, key=repr)
 
     def expected(self, w):
         if self.top:
@@ -556,17 +686,27 @@ class Handler:
             return [] if n else [((), "top", True)]
         out = []
         decl = [s.lstrip("*") for s in self.slots_of.get(self.cls, [])]
+        c = w.get("@cond", ("cond", "c", 0))
         for s in decl:
             if s not in self.single:
                 continue
             n = w.get(f"@rec:{s}", w.get(f"@raw:{s}"))
             if n:
                 continue
+            recd = f"@rec:{s}" in w
             if "condition" in decl:
-                g = (("if", 1 if s == "then" else -1),)
+                pol = 1 if s == "then" else -1
+                if c[0] == "bool":
+                    if (pol == 1) != c[1]:
+                        continue
+                    g = ()
+                else:
+                    g = ((c[1], pol * (-1) ** c[2]),)
             else:
                 g = (("loop", "same"),)
-            out.append((g, s, True))
+            out += self.den(self.arm(s, True, False) if recd else self.arm(s, False, False), g, w)
+            if not recd:
+                out[-1] = (out[-1][0], out[-1][1], True)
         return out
 
     def nullfree(self, v, inside=False):
@@ -640,8 +780,8 @@ def analyse(P, f, cls_handled, single, listy, slots_of, top=False, want_nullfree
                 if is_list_handler:
                     what = _list_verdict(h, v, w2)
                 else:
-                    act = sorted(h.den(v), key=repr)
-                    exp = sorted(h.expected(w2), key=repr)
+                    act = h.canon(h.den(v, (), w2))
+                    exp = h.canon(h.expected(w2))
                     if act != exp:
                         what = _explain(exp, act)
                     if what is None and top and (v[0] == "null" or (v[0] == "arm" and v[3])):
@@ -677,10 +817,13 @@ def _g(g):
         return "no guard"
     out = []
     for x in g:
-        if x[0] == "if":
-            out.append({1: "the condition", -1: "the negated condition"}.get(x[1], "another condition"))
-        else:
+        if x[0] == "loop":
             out.append("the same loop" if x[1] == "same" else "a loop with other bounds")
+        elif x[0] == "?":
+            out.append("another condition")
+        else:
+            flag = {"c": "the flag of the condition", "o": "another flag"}.get(x[0], str(x[0]))
+            out.append(flag + (" true" if x[1] == 1 else " false"))
     return " / ".join(out)
 
 
